@@ -1246,3 +1246,46 @@ def h_result_chain(vf, node, fn, args):
         return vf.apply_closure(f, [o])
     r = vf.apply_fn_item(tt(vf, f), [o], node)
     return r if r is not None else vf.default_call(key, args, node, fn)
+
+
+@reg('ITER', 'std::iter::Iterator::position')
+def h_position(vf, node, fn, args):
+    """iter.position(pred): Some(k) for the first k with pred(elem_k), else None -- evaluated like a scan with an early return
+    (`for (k, x) in iter.enumerate() { if pred(x) { return Some(k) } } None`), so a stateful predicate (a running sum) is a carried
+    place of that loop.  The result is a modelled option opt(found, k)."""
+    s_ = vf.as_seq(args[0], node)
+    c = vf.deref(args[1])
+    if not isinstance(c, Clos):
+        return vf.default_call('std::iter::Iterator::position', args, node, fn)
+    NONE = T.app('none#position')
+    saved_pc, saved_outer = vf.pc, vf.pc_outer
+    vf.pc_outer = saved_outer + list(saved_pc)
+    vf.pc = []
+    vf.fn_exits.append([])
+    saved_le, saved_lb = vf.loop_exits, vf.loop_pc_base
+    vf.loop_exits, vf.loop_pc_base = [], []
+    holder = {}
+
+    def body(elem):
+        ls = vf.loops[holder['i']]
+        pred = tt(vf, vf.apply_closure(c, [elem]))
+
+        def ret():
+            vf.fn_exits[-1].append((T.land(*vf.pc), ls.var, dict(vf.store)))
+            if vf.loop_exits:
+                vf.loop_exits[-1].append(('return', None, T.land(*vf.pc_since_loop()), None))
+            vf.dead = True
+            return T.sym('dead')
+        vf.branch(pred, ret, lambda: T.UNIT)
+        return T.UNIT
+    holder['i'] = len(vf.loops)
+    vf.loop_over(s_, body, node, kind='for')
+    res = vf.finish_fn(NONE)
+    vf.loop_exits, vf.loop_pc_base = saved_le, saved_lb
+    vf.pc, vf.pc_outer = saved_pc, saved_outer
+    rt = tt(vf, res)
+    if rt[0] == 'ite' and rt[3] is NONE and not any(x is NONE for x in T.subterms(rt[2])):
+        return T.app('opt', rt[1], rt[2])
+    if rt is NONE:
+        return T.app('opt', T.FALSE, T.ZERO)
+    return rt
